@@ -53,6 +53,12 @@ Emit == (pc = "analysed" /\ flag) => PrintT(ToJson([files |-> { [path |-> l[1], 
 (* obs = [path, stem, jsonOff, jsonOn, stubOff, stubOn, digestOff, digestOn, hasDecl]   *)
 (***************************************************************************)
 Look(p) == IF \E j \in 1..Len(p) : p[j] \in Filtered THEN "filtered-dir" ELSE IF p = <<>> THEN "root" ELSE "lookalike-or-plain-dir"
+(* A private module of the package root whose class only the package files of filtered directories re-export: without the flag those   *)
+(* files contribute nothing, a re-export included.  obs = [role, stubOff, publicOff]                                                     *)
+JudgeHidden(o) ==
+  IF o.stubOff \/ o.publicOff
+  THEN { [property |-> "C15", clause |-> "Off", sig |-> "re-export-in-filtered-package-counts-without-flag", expected |-> "private, no stub", observed |-> ToString(<<o.stubOff, o.publicOff>>)] }
+  ELSE {}
 JudgeFile(o) ==
   LET ex == \E j \in 1..Len(o.path) : o.path[j] \in Filtered
       where == (IF Len(o.path) = 0 THEN "root" ELSE "depth" \o ToString(Len(o.path))) \o ":" \o Look(o.path) \o ":" \o o.stem
